@@ -328,6 +328,61 @@ func ruleAllKnownDCsSynced(c *Ctx) {
 		[]Ev{newBoolEv(gen, "checkSyncedDCs == true", true, callMatcher(chk))}, all, "a synchronisation round is taken as complete only after checkSyncedDCs reported every known dc-location as synced")
 }
 
+// ruleFollowerSuffixRefresh: the width every allocator shifts by is computed
+// from maxSuffix; a follower refreshes it from etcd on every checker round (a
+// suffix is persisted by the leader *after* the dc-location appears, so "only
+// when the topology changed" misses it).
+func ruleFollowerSuffixRefresh(c *Ctx) {
+	P := c.P
+	const tso = "server/tso"
+	rule := c.Prop + "/suffix"
+	fn := P.Method(tso, "AllocatorManager", "ClusterDCLocationChecker")
+	isLeader := F(P.Method("server/member", "Member", "IsLeader"))
+	getMax := F(P.Method(tso, "AllocatorManager", "getMaxLocalTSOSuffix"))
+	mu := P.Field(tso, "AllocatorManager", "mu")
+	c.need(rule, fn, "release of am.mu at the end of a round", func(x ssa.Instruction) bool {
+		cl, ok := x.(*ssa.Call)
+		if !ok || cl.Call.StaticCallee() == nil || cl.Call.StaticCallee().Name() != "Unlock" || len(cl.Call.Args) == 0 {
+			return false
+		}
+		return derivesFrom(cl.Call.Args[0], func(v ssa.Value) bool { return fieldOfAddr(v) == mu }, 4)
+	}, []Ev{guardCall("this member is the PD leader", true, callMatcher(isLeader)), &calledEv{name: "getMaxLocalTSOSuffix()", match: instrCallMatcher(getMax)}}, anyOf,
+		"a follower re-reads the largest persisted suffix in every round")
+	// local path: the overflow test of getTS sees the differentiated logical part, i.e. generateTSO is
+	// given the suffix width getTS was called with and nothing is shifted afterwards
+	getTS := P.Method(tso, "timestampOracle", "getTS")
+	gen := F(P.Method(tso, "timestampOracle", "generateTSO"))
+	var bitsParam ssa.Value
+	for _, p := range getTS.Params {
+		if p.Name() == "suffixBits" {
+			bitsParam = p
+		}
+	}
+	if bitsParam == nil && len(getTS.Params) == 4 {
+		bitsParam = getTS.Params[3]
+	}
+	okArg := false
+	for _, ci := range callsIn(getTS, false, gen) {
+		a := callArgs(ci.Common())
+		if len(a) == 2 && bitsParam != nil && sameVal(a[1], bitsParam) {
+			okArg = true
+		} else {
+			okArg = false
+			break
+		}
+	}
+	isDiff, _ := differentiated(P)
+	late := false
+	for _, b := range getTS.Blocks {
+		for _, ins := range b.Instrs {
+			if v, ok := ins.(ssa.Value); ok && isDiff(v) {
+				late = true
+			}
+		}
+	}
+	c.Check(okArg && !late, c.Prop+"/suffix-bits-reported", "width given to generateTSO in "+fnName(getTS), "the suffix width of the request, so that the overflow test applies to the differentiated value (no shifting after the test)", P.pos(getTS.Pos()), "")
+}
+
 // ruleOverflowCarry: a timestamp whose logical part is set back (assigned a
 // value that is not derived from its old logical part) must have had its
 // physical part advanced first — otherwise the new value is below the old one.
@@ -463,7 +518,7 @@ func ruleSuffixBitsReported(c *Ctx) {
 
 func init() {
 	register("C05", "Local and global timestamps are mutually consistent", func(c *Ctx) {
-		c.Group("C05/suffix", "suffix width never shrinks; a suffix is create-if-absent, existing ones are returned, new ones are max+1, only the leader assigns", func() { ruleSuffix(c) })
+		c.Group("C05/suffix", "suffix width never shrinks; a suffix is create-if-absent, existing ones are returned, new ones are max+1, only the leader assigns", func() { ruleSuffix(c); ruleFollowerSuffixRefresh(c) })
 		c.Group("C05/local-leader-sync", "a new local allocator leader synchronises (Initialize, WriteTSO(MaxTs), suffix width) before it is enabled", func() { ruleLocalLeaderSync(c); ruleCampaignGate(c) })
 		c.Group("C05/estimate-validated", "the global allocator validates its estimate before writing it; the local side bumps an equal maximum and never reports a failed write as synced", func() { ruleGlobalSettingPhase(c); ruleAllKnownDCsSynced(c) })
 		c.Group("C05/overflow-carry", "when the estimate's logical part overflows it is reset only together with an advance of its physical part", func() { ruleOverflowCarry(c) })
